@@ -152,14 +152,13 @@ theorem handlePeerMessage_wframe (m : M) (k : Nat) (msg : Msg) (hnp : ∀ i b l 
 /-- Handing piece `i` to the writer. -/
 theorem WInv.start_write {s s' : St} (h : WInv s) (hw : s.writing = none) (i : Nat) (w : WriteJob)
     (hwp : w.piece = i) (hwg : w.gen = s.gen)
-    (hsec : (s.cfg.sections i).filter (fun sc => !(s.cfg.fpads.getD sc.file false)) ≠ [])
-    (hv : s.verifier = false) (hbit : bitOf s.bf i = false)
+    (hv : s.verifier = false) (hbit : bitOf s.bf i = false) (hin : i < s.n) (hdn : s.done.getD i false = false)
     (h1 : s'.cfg = s.cfg) (h2 : s'.wflag = setAt s.wflag i true) (h3 : s'.writing = some w)
     (h4 : s'.gen = s.gen) (h5 : s'.loaded = s.loaded) (h6 : s'.verifier = s.verifier)
     (h7 : s'.allocator = s.allocator) (h8 : s'.bf = s.bf) (h9 : s'.done = s.done) (h10 : s'.info = s.info)
     (h11 : s'.completed = s.completed) (h12 : s'.dls = s.dls) (h13 : s'.idls = s.idls) (h14 : s'.peers = s.peers) :
     WInv s' := by
-  refine ⟨by rw [h1]; exact h.cfgOK, h.q.of_peers h14, ?_, ?_, ?_, ?_, ?_, ?_, ?_, ?_, ?_⟩
+  refine ⟨h.q.of_peers h14, ?_, ?_, ?_, ?_, ?_, ?_, ?_, ?_, ?_, ?_⟩
   · intro hl j hj
     rw [h2, getD_setAt] at hj
     split at hj
@@ -168,13 +167,18 @@ theorem WInv.start_write {s s' : St} (h : WInv s) (hw : s.writing = none) (i : N
       rw [hw] at hw'; cases hw'
   · intro w' hw'
     rw [h3] at hw'; cases hw'
-    rw [h1, hwp]; exact hsec
-  · intro w' hw'
-    rw [h3] at hw'; cases hw'
     rw [h4, hwg]; exact Nat.le_refl _
   · intro w' hw' _ _
     rw [h3] at hw'; cases hw'
     rw [h6, h8, hwp]; exact ⟨hv, hbit⟩
+  · intro hl
+    rw [h2]; unfold St.n; rw [h1]
+    simpa [setAt, St.n] using h.wl (h5 ▸ hl)
+  · intro w' hw' _ hl
+    rw [h3] at hw'; cases hw'
+    rw [h2, h9, hwp, getD_setAt]
+    have := h.wl (h5 ▸ hl)
+    exact ⟨by rw [if_pos ⟨rfl, by omega⟩], hdn⟩
   · rw [h5, h6, h8, h9]; exact h.bd
   · rw [h12, h9]; exact h.dd
   · rw [h12, h5, h7, h6, h11]; exact h.dl
@@ -224,14 +228,10 @@ theorem handlePieceMessage_winv (m : M) (k i b l : Nat) (g : Bool) (h : WInv m.1
           have h1 := ((h.bd dl1 dl3 bb hb).2 i hbi)
           have h2 := h.dd d hdm
           rw [hpi', h1] at h2; cases h2
-    have hsec : (m.1.cfg.sections i).filter (fun sc => !(m.1.cfg.fpads.getD sc.file false)) ≠ [] := by
-      apply Cfg.blocksHaveData_spec _ h.cfgOK i (by simpa [St.n] using hn)
-      cases hbl : m.1.cfg.blocks.getD i [] with
-      | nil => rw [hbl] at hlen; simp at hlen
-      | cons a l => rfl
     simp only [onSt_fst, ite_fst_M]
-    apply WInv.start_write hX (by simpa using hw) i ⟨i, k, d.good && g, m.1.gen⟩ rfl (by simp)
-      (by simpa using hsec) (by simpa using dl3) (by simpa using hbit)
+    apply WInv.start_write hX (by simpa using hw) i ⟨i, k, d.good && g, m.1.gen, false⟩ rfl (by simp)
+      (by simpa using dl3) (by simpa using hbit) (by simpa [St.n] using hn)
+      (by have := h.dd d hdm; rw [hpi'] at this; simpa using this)
     all_goals simp
 
 /-- Any peer message, given that a block only arrives while no write is in flight. -/
